@@ -115,8 +115,10 @@ def recase(rng, name):
 # ------------------------------------------------------------------ execution context
 
 class Ctx:
-    def __init__(self, rec, prog, server, secure_default, tz='UTC'):
+    def __init__(self, rec, prog, server, secure_default, tz='UTC', cfg='resp'):
         self.rec, self.prog, self.server, self.sd, self.tz = rec, prog, server, secure_default, tz
+        self.cfg = cfg
+        self.light = False
         self.rejected = []        # cookie writes that raised: dict(name, value, seq)
         self.seq = 0
         self.skip_cookies = False
@@ -137,7 +139,8 @@ class Ctx:
                 return
         # 'before': the cases this process ran just before (state may survive from one response to the next)
         self.rec.violation(kind, {'prog': self.prog, 'server': self.server, 'secure_default': self.sd,
-                                  'tz': self.tz, 'step': step, 'detail': detail, 'before': list(RECENT)},
+                                  'tz': self.tz, 'cfg': self.cfg, 'step': step, 'detail': detail,
+                                  'before': list(RECENT)},
                            known_key=known)
 
 
@@ -767,10 +770,12 @@ def probe(ctx, resp, i, op):
 
 def execute(ctx, resp):
     try:
-        resp.options.secure_cookies_by_default = ctx.sd
+        if ctx.cfg in ('resp', 'own-set'):
+            resp.options.secure_cookies_by_default = ctx.sd      # through the response, inside the request
         for i, op in enumerate(ctx.prog):
             apply_op(ctx, resp, i, op)
-            probe(ctx, resp, i, op)
+            if not ctx.light or i == len(ctx.prog) - 1:
+                probe(ctx, resp, i, op)
         ctx.ran = True
     except StopCheck:
         ctx.stopped = True
@@ -805,20 +810,57 @@ class _AEcho:
 _apps = {}
 
 
+class _OwnOptionsW(falcon.Response):
+    """custom response_type that builds its responses without the app's options: each has its own"""
+
+    def __init__(self, options=None):
+        super().__init__()
+
+
+class _OwnOptionsA(falcon.asgi.Response):
+    def __init__(self, options=None):
+        super().__init__()
+
+
+# how the Secure default gets configured for a case:
+#   resp        - the responder sets resp.options.secure_cookies_by_default (the app's object, by design)
+#   app-inplace - the harness sets app.resp_options.secure_cookies_by_default before the request
+#   app-replace - the harness assigns a freshly prepared ResponseOptions object to app.resp_options
+#   own-set     - app with a response_type whose responses have their own options; the responder sets its own
+#   own-default - same app, nobody touches the options of this response: the documented default (True) applies
+CFGS = ['resp', 'app-inplace', 'app-replace', 'own-set', 'own-default']
+
+
 def apps():
     if not _apps:
-        w = falcon.App()
-        w.add_route('/run', _WRun())
-        w.add_route('/echo', _WEcho())
-        a = falcon.asgi.App()
-        a.add_route('/run', _ARun())
-        a.add_route('/echo', _AEcho())
-        _apps['wsgi'], _apps['asgi'] = w, a
+        for own in (False, True):
+            w = falcon.App(response_type=_OwnOptionsW) if own else falcon.App()
+            w.add_route('/run', _WRun())
+            w.add_route('/echo', _WEcho())
+            a = falcon.asgi.App(response_type=_OwnOptionsA) if own else falcon.asgi.App()
+            a.add_route('/run', _ARun())
+            a.add_route('/echo', _AEcho())
+            _apps['wsgi', own], _apps['asgi', own] = w, a
     return _apps
 
 
+def configure(server, cfg, sd):
+    """Apply the configuration mode from outside the request; returns the app to drive."""
+    app = apps()[server, cfg.startswith('own')]
+    if cfg == 'app-inplace':
+        app.resp_options.secure_cookies_by_default = sd
+    elif cfg == 'app-replace':
+        o = falcon.ResponseOptions()
+        o.secure_cookies_by_default = sd
+        app.resp_options = o
+    return app
+
+
+_cur_app = {}
+
+
 def _request(server, path, headers=()):
-    app = apps()[server]
+    app = _cur_app.get(server) or apps()[server, False]
     if server == 'wsgi':
         res = W.run_wsgi(app, W.make_environ('GET', path, headers=list(headers)))
         hdrs = list(res.headers)
@@ -1069,18 +1111,28 @@ SERVERS = [('wsgi', 'asgi')]
 
 
 _tz_counter = [0]
+_cfg_counter = [0]
 RECENT = []          # the last few cases of this process: [prog, secure_default, tz]
 
 
-def run_program(rec, prog, secure_default=True, servers=None, key='auto', tz=None):
+def run_program(rec, prog, secure_default=True, servers=None, key='auto', tz=None, cfg=None, light=False):
     if tz is None:
         # the server's local zone rotates from case to case: nothing emitted may depend on it
         _tz_counter[0] += 1
         tz = TZS[_tz_counter[0] % len(TZS)]
+    if cfg is None:
+        # so does the way the Secure default is configured (changes every 3 cases; 3 and 5 are coprime)
+        _cfg_counter[0] += 1
+        cfg = CFGS[(_cfg_counter[0] // 3) % len(CFGS)]
+    if cfg == 'own-default':
+        secure_default = True           # nobody configures anything: the documented default
     set_tz(tz)
     rec.count('tz.' + tz.split(',')[0])
+    rec.count('cfg.' + cfg)
     for server in (servers or SERVERS[0]):
-        ctx = Ctx(rec, prog, server, secure_default, tz)
+        _cur_app[server] = configure(server, cfg, secure_default)
+        ctx = Ctx(rec, prog, server, secure_default, tz, cfg)
+        ctx.light = light       # value sweeps: every operation has its own oracle, full read-back at the end only
         CUR[0] = ctx
         res, hdrs, failed, info = _request(server, '/run')
         if ctx.stopped:
@@ -1096,9 +1148,9 @@ def run_program(rec, prog, secure_default=True, servers=None, key='auto', tz=Non
         echo = check_emission(ctx, hdrs)
         check_echo(ctx, echo)
         rec.count('run.' + server)
-    if len(prog) <= 12:
-        RECENT.append([prog, secure_default, tz])
-        del RECENT[:-6]
+    # a long value sweep is remembered as an empty case: it still applied its configuration
+    RECENT.append([prog if len(prog) <= 12 else [], secure_default, tz, cfg])
+    del RECENT[:-16]            # one full rotation of the configuration modes
     rec.case(repr(prog) if key == 'auto' else key)
 
 
@@ -1224,12 +1276,12 @@ ESCAPE_COUNTS = list(range(0, 41)) + [63, 64, 65, 127, 128, 129, 255, 256, 257, 
 ESCAPE_DEFECTS = ['', '%', '%2', '%zz', '%G0', '%0g', ' ', '\u00e9']
 
 
-def long_escape_cases():
+def long_escape_cases(counts=None):
     """Values made of N well-formed %XX escapes (every N up to 40, then around powers of two) with one
     element that is not an escape (bare or malformed '%', a character that needs escaping, or nothing)
     placed before, amid or after them -> (n, defect, position, string)."""
     octets = ['%20', '%2F', '%c3%a9', '%C3%A9', '%7e', '%41', '%e2%82%ac', '%0A']
-    for n in ESCAPE_COUNTS:
+    for n in (counts or ESCAPE_COUNTS):
         parts = []
         k = 0
         while sum(p.count('%') for p in parts) < n:
@@ -1612,6 +1664,16 @@ def nontrivial_key(prog):
 
 # ------------------------------------------------------------------ entry points
 
+_marks = []
+
+
+def _mark(rec, name):
+    """evidence only: how long each phase took in shard 0 (no verdict depends on it)"""
+    _marks.append((name, rec.elapsed()))
+    if name == 'end' and rec.shard == 0:
+        rec.note('phase start times (s): ' + ', '.join('%s=%.1f' % m for m in _marks))
+
+
 def run(rec):
     rec.rule = ('a case = one history of response-header operations executed inside a responder of a real '
                 'falcon app, once per server interface (WSGI driver, ASGI driver), followed by the cookie echo '
@@ -1639,6 +1701,7 @@ def run(rec):
         SERVERS[0] = ('asgi',)
         frac = 0.3
 
+    _mark(rec, 'A')
     # -- phase A: all histories up to length L over the abstract-operation alphabet SYMS
     small = quick or rec.mode != 'pure'
     maxlen = 3 if small else 4
@@ -1652,6 +1715,7 @@ def run(rec):
             rec.count('phase.A')
             if idx % 997 == 0:
                 rec.sample({'history': prog})
+    _mark(rec, 'B')
     # -- phase B: cookie attribute cross product (4 cookies per response)
     batch, bidx = [], 0
     last_sd = None
@@ -1674,6 +1738,7 @@ def run(rec):
         bidx += 1
         if bidx % rec.nshards == rec.shard:
             flush(last_sd)
+    _mark(rec, 'D')
     # -- phase D: every string up to length L over the URI alphabet through all URI-bearing helpers
     ulen = 3 if small else 4
     idx = 0
@@ -1683,22 +1748,25 @@ def run(rec):
             if idx % rec.nshards != rec.shard:
                 continue
             s = ''.join(tup)
-            run_program(rec, uri_program(s), True)
+            run_program(rec, uri_program(s), True, light=True)
             rec.count('phase.D')
             if idx % 1499 == 0:
                 rec.sample({'uri_input': s})
+    _mark(rec, 'F')
     # -- phase F: many escapes around one element that is not an escape (sizes around internal constants)
-    for j, (n, defect, pos, sv) in enumerate(long_escape_cases()):
+    ecounts = (list(range(0, 21)) + [63, 64, 65, 255, 256, 257]) if small else None
+    for j, (n, defect, pos, sv) in enumerate(long_escape_cases(ecounts)):
         if j % rec.nshards != rec.shard:
             continue
-        run_program(rec, uri_program(sv)[:6], True, key=('F', n, defect, pos))
+        run_program(rec, uri_program(sv)[:6], True, key=('F', n, defect, pos), light=True)
         rec.count('phase.F')
         if defect.startswith('%') and n >= 9:
             rec.count('uri.many_escapes_then_malformed')
         if defect == '' and n >= 9:
             rec.count('uri.many_escapes_wellformed')
+    _mark(rec, 'G')
     # -- phase G: code point sweep through the file-name helpers and Location (20 code points per response)
-    cps = sweep_code_points(61 if small else 7)
+    cps = sweep_code_points(251 if small else 7)
     for j in range(0, len(cps), 20):
         if (j // 20) % rec.nshards != rec.shard:
             continue
@@ -1710,8 +1778,9 @@ def run(rec):
             if not ch.isspace():
                 prog.append(['link', {'target': '/t/' + ch, 'rel': ('//h/' if k % 2 else 'next http://h/') + ch}])
             rec.count('sweep.special' if special else 'sweep.stride')
-        run_program(rec, prog, True, key=('G', cps[j][0]))
+        run_program(rec, prog, True, key=('G', cps[j][0]), light=True)
         rec.count('phase.G')
+    _mark(rec, 'H')
     # -- phase H: Max-Age around 2**31 .. 10**21 as int, decimal string and float (4 cookies per response)
     mav = max_age_boundary_values()
     for j in range(0, len(mav), 4):
@@ -1723,6 +1792,21 @@ def run(rec):
         for v in mav[j:j + 4]:
             if not isinstance(v, (float, bool)) and abs(int(v)) > 2 ** 53:
                 rec.count('maxage.exact_above_2_53')
+    _mark(rec, 'I')
+    # -- phase I: every ordered pair of (configuration mode, Secure default) on consecutive responses
+    combos = [(c, d) for c in CFGS for d in (True, False)]
+    cprog = [['cookie', 's', 'v', {}], ['cookie', 't', 'v', {'secure': None}, 'pos'],
+             ['cookie', 'u', 'v', {'secure': True}], ['cookie', 'w', 'v', {'secure': False}]]
+    j = 0
+    for c1, d1 in combos:
+        for c2, d2 in combos:
+            j += 1
+            if j % rec.nshards != rec.shard:
+                continue
+            run_program(rec, cprog, d1, cfg=c1, key=('I', c1, d1, c2, d2, 1))
+            run_program(rec, cprog, d2, cfg=c2, key=('I', c1, d1, c2, d2, 2))
+            rec.count('phase.I')
+    _mark(rec, 'E')
     # -- phase E: directed histories (branch classes named by the floors)
     for j, prog in enumerate(directed_programs()):
         if j % rec.nshards != rec.shard:
@@ -1735,6 +1819,7 @@ def run(rec):
         rec.note('exhaustive parts: all histories of length <= %d over %d abstract operations; %d cookie attribute '
                  'combinations; all strings of length <= %d over %d symbols through the URI-bearing helpers'
                  % (maxlen, len(SYMS), 2 * 3 * 5 * 2 * 2 * 3 * 2 * 4 * 2, ulen, len(URI_ALPHABET)))
+    _mark(rec, 'C')
     # -- phase C: random histories
     n = 0
     # at least 60 per shard whatever the machine load (sized by count), then until the budget is used
@@ -1748,6 +1833,7 @@ def run(rec):
             n += 1
             if n <= 2:
                 rec.sample({'history': prog, 'secure_default': sd})
+    _mark(rec, 'end')
     # -- floors
     if rec.mode != 'pure':
         rec.counters['twin.asgi_runs'] = rec.counters['run.asgi']
@@ -1760,18 +1846,21 @@ def run(rec):
     rec.floor('phase.D', 500)
     rec.floor('phase.C', 200)
     rec.floor('phase.E', 280)
-    rec.floor('phase.F', 1000)
+    rec.floor('phase.F', 500)
+    rec.floor('phase.I', 100)
+    for c in CFGS:
+        rec.floor('cfg.' + c, 300)
     for c, nmin in [('callform.unset_positional', 80), ('callform.cookie_positional', 2000),
                     ('callform.link_positional', 1000), ('prop.date_other_zone', 40), ('prop.date_utc_aware', 40),
                     ('prop.date_naive', 40), ('mon.echo_again', 2500), ('mon.unset_attrs', 200)]:
         rec.floor(c, nmin)
-    rec.floor('phase.G', 700)
+    rec.floor('phase.G', 300)
     rec.floor('phase.H', 60)
     rec.floor('sweep.special', 2000)
-    rec.floor('sweep.stride', 10000)
+    rec.floor('sweep.stride', 4000)
     rec.floor('maxage.exact_above_2_53', 80)
-    rec.floor('uri.many_escapes_then_malformed', 400)
-    rec.floor('uri.many_escapes_wellformed', 80)
+    rec.floor('uri.many_escapes_then_malformed', 200)
+    rec.floor('uri.many_escapes_wellformed', 40)
     for c, nmin in [('mon.headers', 2000), ('mon.get_header', 4000), ('mon.prop_read', 10000), ('get.recased', 500),
                     ('get.present', 500), ('get.absent', 500), ('mon.emission', 800), ('mon.emit_plain', 500),
                     ('mon.asgi_name_case', 500), ('mon.cookie_lines', 500), ('mon.raw_cookie', 100),
@@ -1808,7 +1897,7 @@ def replay(rec, w):
     prog = wit['prog']
     print('replaying history of %d operations (secure_default=%r), reported on %s' % (
         len(prog), wit.get('secure_default'), wit.get('server')))
-    for bprog, bsd, btz in wit.get('before') or []:
-        run_program(rec, bprog, bsd, tz=btz)
-    run_program(rec, prog, wit.get('secure_default', True), tz=wit.get('tz') or 'UTC')
+    for b in wit.get('before') or []:
+        run_program(rec, b[0], b[1], tz=b[2], cfg=(b[3] if len(b) > 3 else 'resp'))
+    run_program(rec, prog, wit.get('secure_default', True), tz=wit.get('tz') or 'UTC', cfg=wit.get('cfg') or 'resp')
     rec.case('replay-sentinel')
